@@ -710,6 +710,35 @@ pub fn drive_c08(a: &Args) {
             out.emit(parse_event(&t));
         }
     }
+    // well-formed escapes for code points all over the alphabet (every landmark and its neighbours, a stride; every
+    // code point in the thorough tier): braced in lower case, upper case and zero-padded, and the four-digit form
+    {
+        let mut xs: Vec<u32> = vec![];
+        for &l in crate::util::LANDMARKS.iter() {
+            xs.extend([l.saturating_sub(1), l, (l + 1).min(MAX_CHAR)]);
+        }
+        let stride = a.sz(997, 1) as usize;
+        xs.extend((0..=MAX_CHAR).step_by(stride).map(|x| (x + (a.seed as u32 % 7)).min(MAX_CHAR)));
+        xs.extend([0x22, 0x5C, 0x7F, 0x80, 0xA0, 0xFFFC, 0x2FFFD]);
+        xs.sort();
+        xs.dedup();
+        for &x in &xs {
+            let forms: Vec<String> = if a.thorough() && stride == 1 && !crate::util::LANDMARKS.contains(&x) {
+                vec![format!("\\u{{{:x}}}", x)]
+            } else {
+                let mut f = vec![format!("\\u{{{:x}}}", x), format!("\\u{{{:X}}}", x), format!("\\u{{{:05x}}}", x), format!("\\u{{{:x}}}z", x)];
+                if x <= 0xFFFF {
+                    f.push(format!("\\u{:04x}", x));
+                    f.push(format!("\\u{:04X}", x));
+                }
+                f
+            };
+            for f in forms {
+                let t: Vec<u32> = f.chars().map(|c| c as u32).collect();
+                out.emit(parse_event(&t));
+            }
+        }
+    }
     // two consecutive escape attempts: a malformed one (with digits already read) followed by a
     // well-formed one -- whatever the first left behind must not leak into the second
     let firsts: Vec<Vec<u32>> = {
